@@ -28,9 +28,10 @@ Fixpoint merge_strs (l : list inline) : list inline :=
   | x :: r => x :: merge_strs r
   end.
 
-(* the writer appends the configured extension to the destination of a regular note link *)
+(* the writer appends the configured extension to the destination of a regular note link
+   (`ref_url`: and `.md` where the url ends in `.md` and no extension is configured) *)
 Definition rr_url (o : opts) (url : string) : string :=
-  if is_ref_url url then url +++ refs_extension o else url.
+  if is_ref_url url then ref_url url (refs_extension o) else url.
 
 (* the writer's test for `<url>` (inline_md, Regular) *)
 Definition written_autolink (o : opts) (url : string) (l : list inline) : bool :=
@@ -47,8 +48,8 @@ Fixpoint rr_inline (o : opts) (i : inline) : inline :=
       | Regular =>
           if written_autolink o url l then Link url "" Regular [Str url]     (* `<url>`: the text is the destination *)
           else Link (rr_url o url) "" Regular (merge_strs (map (rr_inline o) l))
-      | WikiLink => Link url "" WikiLink [Str url]            (* `[[url]]`: the text is the destination *)
-      | WikiLinkPiped => Link url "" WikiLinkPiped (merge_strs (map (rr_inline o) l))
+      | WikiLink => Link (wiki_url url) "" WikiLink [Str (wiki_url url)]   (* `[[url]]`: the text is the destination *)
+      | WikiLinkPiped => Link (wiki_url url) "" WikiLinkPiped (merge_strs (map (rr_inline o) l))
       end
   | Image url _ l => Image url "" (merge_strs (map (rr_inline o) l))
   | x => x
